@@ -258,15 +258,22 @@ func c03r1(c *core.Ctx) {
 // outcome false, no statement with an effect (assignment, increment, call with stores, dynamic call) is executed before
 // the enclosing loop continues with its next iteration or the function returns. The second result names an offender.
 func noEffectWhenFalse(c *core.Ctx, f *core.Func, test *ast.CallExpr) (bool, string) {
+	return noEffectOnOutcome(c, f, test, 0, nil)
+}
+
+// noEffectOnOutcome is the general form: test is any boolean sub-expression of branch conditions of f, val its assumed
+// outcome (0 false, 1 true). extra, if given, is consulted for every node on the paths before the generic effect test
+// and may veto ("" = fine), accept the node without the generic test ("skip"), or accept and end the path ("stop").
+func noEffectOnOutcome(c *core.Ctx, f *core.Func, test ast.Expr, val int, extra func(n ast.Node) string) (bool, string) {
 	m := c.M
 	g := m.CFG(f)
 	loop := enclosingLoopOf(f, test)
-	// three-valued evaluation of a condition with the test fixed to false
+	// three-valued evaluation of a condition with the test fixed to the assumed outcome
 	var ev func(e ast.Expr) int
 	ev = func(e ast.Expr) int {
 		e = ast.Unparen(e)
-		if e == ast.Expr(test) {
-			return 0
+		if e == ast.Unparen(test) {
+			return val
 		}
 		switch x := e.(type) {
 		case *ast.UnaryExpr:
@@ -302,7 +309,7 @@ func noEffectWhenFalse(c *core.Ctx, f *core.Func, test *ast.CallExpr) (bool, str
 	contains := func(e ast.Expr) bool {
 		found := false
 		ast.Inspect(e, func(n ast.Node) bool {
-			if n == ast.Node(test) {
+			if n == ast.Node(ast.Unparen(test)) {
 				found = true
 			}
 			return !found
@@ -374,6 +381,17 @@ func noEffectWhenFalse(c *core.Ctx, f *core.Func, test *ast.CallExpr) (bool, str
 		}
 		seen[b] = true
 		for _, n := range b.Nodes {
+			if extra != nil {
+				switch w := extra(n); w {
+				case "":
+				case "skip":
+					continue
+				case "stop":
+					return ""
+				default:
+					return w
+				}
+			}
 			if w := effect(n); w != "" {
 				return w
 			}
@@ -565,6 +583,39 @@ func dominatedUse(c *core.Ctx, sr *selRoles, f *core.Func, tv relTableVar, kind 
 		o := m.Info.ObjectOf(id)
 		return (tv.v != nil && o == tv.v) || (tv.idVar != nil && o == tv.idVar)
 	}
+	// lenOfT: e reads the row count of the table (directly, or as a local that names that read)
+	lenOfT := func(e ast.Expr) bool {
+		x := ast.Unparen(m.StripConv(e))
+		if id, ok := x.(*ast.Ident); ok {
+			if v, ok := m.Info.ObjectOf(id).(*types.Var); ok && m.LocalDef(v) != nil {
+				x = ast.Unparen(m.StripConv(m.LocalDef(v)))
+			}
+		}
+		switch y := x.(type) {
+		case *ast.SelectorExpr:
+			return fieldKeyOf(m, y) == "table.len" && isT(y.X)
+		case *ast.CallExpr:
+			if sel, ok := ast.Unparen(y.Fun).(*ast.SelectorExpr); ok && len(y.Args) == 0 && isT(sel.X) {
+				if k, cal, _ := m.Callee(y); k == core.CallStatic && cal != nil && cal.Recv == "table" && cal.Sig.Results().Len() == 1 && isInt(cal.Sig.Results().At(0).Type()) {
+					return true
+				}
+			}
+		}
+		return false
+	}
+	isT0 := isT
+	isT = func(e ast.Expr) bool {
+		if isT0(e) {
+			return true
+		}
+		// a local naming the table's row count stands for the table: using it counts as using the table
+		if id, ok := ast.Unparen(e).(*ast.Ident); ok && m.Info.Defs[id] == nil {
+			if v, ok := m.Info.ObjectOf(id).(*types.Var); ok && m.LocalDef(v) != nil {
+				return lenOfT(id)
+			}
+		}
+		return false
+	}
 	// identifiers that are part of a guard, of the definition or of the derivation of the pointer from the id
 	exempt := map[*ast.Ident]bool{}
 	markAll := func(n ast.Node) {
@@ -592,6 +643,14 @@ func dominatedUse(c *core.Ctx, sr *selRoles, f *core.Func, tv relTableVar, kind 
 		case *ast.AssignStmt:
 			if n == tv.def {
 				markAll(x)
+			}
+			// rows := T.Len(): naming the row count is not a use (uses of the name are)
+			if x.Tok == token.DEFINE && len(x.Lhs) == 1 && len(x.Rhs) == 1 && lenOfT(x.Rhs[0]) {
+				if id := identOf(x.Lhs[0]); id != nil {
+					if v, ok := m.Info.ObjectOf(id).(*types.Var); ok && m.LocalDef(v) != nil {
+						markAll(x)
+					}
+				}
 			}
 			// derivation table := &tables[tab]
 			if tv.idVar != nil && len(x.Lhs) == 1 {
@@ -630,14 +689,24 @@ func dominatedUse(c *core.Ctx, sr *selRoles, f *core.Func, tv relTableVar, kind 
 			if !ok || m.ExprString(be.Y) != "0" {
 				return false
 			}
-			l := ast.Unparen(m.StripConv(be.X))
-			var base ast.Expr
-			switch y := l.(type) {
-			case *ast.SelectorExpr:
-				base = y.X
-			case *ast.CallExpr:
-				if sel, ok := ast.Unparen(y.Fun).(*ast.SelectorExpr); ok {
-					base = sel.X
+			baseOf := func(l ast.Expr) ast.Expr {
+				switch y := l.(type) {
+				case *ast.SelectorExpr:
+					return y.X
+				case *ast.CallExpr:
+					if sel, ok := ast.Unparen(y.Fun).(*ast.SelectorExpr); ok {
+						return sel.X
+					}
+				}
+				return nil
+			}
+			// as written, or - when the row count was given a name - as the expression the name stands for
+			base := baseOf(ast.Unparen(m.StripConv(be.X)))
+			if base == nil {
+				if id := identOf(m.StripConv(be.X)); id != nil {
+					if v, ok := m.Info.ObjectOf(id).(*types.Var); ok && m.LocalDef(v) != nil {
+						base = baseOf(ast.Unparen(m.StripConv(m.LocalDef(v))))
+					}
 				}
 			}
 			if tv.v == nil || base == nil || !isT(base) {
